@@ -35,6 +35,17 @@ def corrupt(case, rnd):
     return None
 
 
+CF_TEXTS = ['%.6g', '%.1g', '%.1f', '%.2e', '%.10g', '%.0f']    # spec/ValuesCases.tla CFs
+
+
+def corrupt_event(ev, rnd):
+    e = copy.deepcopy(ev)
+    if 'obs' not in e:
+        return None
+    e['obs']['not'] = 1 - e['obs']['not']
+    return e
+
+
 def gate(ctx, label):
     bad = {k: v for k, v in ctx.sig_counts.items() if k.startswith('SPEC-GATE')}
     if bad:
@@ -64,16 +75,31 @@ def run(ctx):
         'reference on every exported case; a disagreement stops the check with exit 2',
     ]
     ctx.build()
-    stratum = ctx.seed % 6
     # 1. the model: consistency of the two routines, operator laws
     mc = ctx.cfg('MC_Values', constants={'MaxLen': 3 if q else 4})
     ctx.tlc('MC_Values', mc, timeout=1500, heap='8g')
     # 2. spec -> code
     if q:
-        gen = ctx.cfg('Gen_Values', constants={'MaxLen': 4, 'FullLen': 3, 'NStrata': 6, 'Stratum': stratum})
+        gen = ctx.cfg('Gen_Values', constants={'MaxLen': 4, 'FullLen': 3, 'NStrata': 18, 'Stratum': ctx.seed % 18})
     else:
         gen = ctx.cfg('Gen_Values', constants={'MaxLen': 5, 'FullLen': 4, 'NStrata': 12, 'Stratum': ctx.seed % 12})
     ctx.tlc('Gen_Values', gen, capture='cases.ndjson', timeout=3000, heap='8g')
     ctx.cov['exhaustive'] = True
     ctx.replay('cases.ndjson', label='gen-values', min_cases=5000, corrupt=corrupt)
     gate(ctx, 'gen-values')
+    # 3. code -> spec: observations recorded from the real interpreter on longer random strings, validated by TLC
+    ntr = 150 if q else 1500
+    ctx.harness(['C05', 'record', '-seed', str(ctx.seed), '-n', str(ntr), '-out', ctx.path('trace.ndjson')])
+    rejects = ctx.validate_traces('Trace_Values', 'Trace_Values', 'trace.ndjson', label='trace-values', timeout=1500,
+                                  corrupt_event=corrupt_event)
+    names = {'sn': 'strnum', 'st': 'str', 'nm': 'num'}
+    for r in rejects:
+        ev = r['trace'][r['pos']]
+        info = r['info']
+        case = dict(fam='t', s=ev['s'], cls=info['cls'], cf=list(CF_TEXTS[ev['cfi'] - 1].encode()),
+                    of=list(CF_TEXTS[ev['ofi'] - 1].encode()), expected=info['expected'])
+        case['class'] = ev['class']
+        ctx.add_failure(f"C05/{names[ev['class']]}/recorded/{info['cls']}",
+                        f"observation recorded from the real interpreter for {bytes(ev['s'])!r} ({', '.join(ev['provs'])}) is not "
+                        f"explained by any consistent dialect of the specification",
+                        case=case, expected=info['expected'], observed=ev['obs'])
